@@ -306,7 +306,12 @@ USER_SHAPES = [((1, 3),), ((0, 1), (2, 4)), ((1, 2), (2, 3))]
 def universe(cls, line):
     if cls == "Basic":
         return lattice(line, "user")
-    return lattice(line, NATIVE[cls], unique_names=cls == "Gff") + lattice(line, "user", shape_list=USER_SHAPES)
+    extra = []
+    if cls == "Gff":
+        # multi-row GFF features whose segments overlap / nest: the record's extent is not its last segment's end
+        ov = [sh for sh in overlap_shapes(line) if sh[0][1] > sh[1][1]][:12] + [sh for sh in overlap_shapes(line) if sh[0][1] <= sh[1][1]][:6]
+        extra = [dict(r, name=r["name"] + "ov") for r in lattice(line, NATIVE[cls], unique_names=True, shape_list=ov)]
+    return lattice(line, NATIVE[cls], unique_names=cls == "Gff") + extra + lattice(line, "user", shape_list=USER_SHAPES)
 
 
 def query_axes(cls, line):
